@@ -238,6 +238,7 @@ def run(ctx):
         t0 = time.time()
         obs = ctx.replay(b, replay_path, tag="dies-" + prof, per_case_timeout=60)
         log("[c02] replay %s %.1fs" % (prof, time.time() - t0))
+        ctx.cov["evaluations"] += nnav        # every navigation transition is one replayed script (grouped per stream above)
         t0 = time.time()
         ck = Checker(ctx, prof)
         for i, (case, exps) in enumerate(zip(read_ndjson(replay_path), read_ndjson(exp_path))):
